@@ -125,6 +125,10 @@ func forType(t reflect.Type, seen map[reflect.Type]bool, ignore bool, schemas ma
 			if seen[t] {
 				return nil, fmt.Errorf("cycle detected for type %v", t)
 			}
+			// A defined pointer type with its own TypeSchemas entry is not followed.
+			if schemas[t] != nil {
+				break
+			}
 			seen[t] = true
 			defer delete(seen, t)
 		}
